@@ -474,6 +474,9 @@ PROPS["C12"] = {
 
 PROPS["C19"] = {
     "package": "c19", "exe": "m_c19",
+    "repo_builds": [{"cmd": ["cargo", "build", "-p", "tuftool", "--offline"], "cwd": "/repo",
+                     "env": {"CARGO_TARGET_DIR": "/verif/.work/tuftool-target", "CARGO_PROFILE_DEV_DEBUG": "0"}}],
+    "env": {"TUFTOOL": "/verif/.work/tuftool-target/debug/tuftool"},
     "rule": "random repositories: 1..7 targets (names with spaces, non-ASCII, '%', sub-directories; sizes 0..4097) spread over "
             "a delegation tree of up to 6 roles, depth <= 3 (role names with spaces, '/', '..', non-ASCII, '%41', digits), every "
             "role trusted for exactly what its subtree lists; root chains of 1..3 versions (the client ships version 1); both "
@@ -483,7 +486,10 @@ PROPS["C19"] = {
             "1 case of 5 one target file of the source is corrupted. Observed: result of `cache`, every file below the "
             "sandbox (escapes), the metadata directory (names, byte identity with the source), every target (identical / "
             "different / absent, unexpected files), then the copy is loaded through file:// URLs (with the shipped root when "
-            "the chain was copied, else with the trusted root) and every cached target is read back. 250 / 4000 repositories.",
+            "the chain was copied, else with the trusted root) and every cached target is read back. The same copy is also made "
+            "by the `tuftool clone` binary built from /repo, from the source written to a directory (always with the root "
+            "chain; every third repository quick, all thorough), and held against the same expectations. 250 / 4000 "
+            "repositories.",
     "explanation": "Theorems (Tough/Props/C19.lean, Tough/Proofs/ClientCongr.lean, Tough/Proofs/ClientReqs.lean): an update cycle "
                    "depends on the repository only through the files it requests (cycle_congr: two servers that answer alike for "
                    "every requested file give the same cycle, by induction through the root walk, the delegation loading and every "
